@@ -96,7 +96,7 @@ def standin_simulate_grid(tier, seed):
         check_result(res, feats, list(dict.fromkeys(tab["ID"])), key, violations, table=tab)
     return dict(evaluations=evals, distinct_nontrivial=len(distinct),
                 rule="one evaluation = one complete simulate() run on a real fitted logistic model; distinct = design x seed",
-                samples=samples, violations=violations[:5],
+                samples=samples, violations=violations[:60],
                 bound=dict(space="design grid x seeds x 2 fitted logistic models + 5 visit tables (one with saturating ages)", designs=len(grid),
                            seeds=len(seeds), exhaustive=False, seed=seed))
 
